@@ -71,8 +71,8 @@ theorem finding_model_unbalanced_close_panics {V : Type} (S : Sem V) :
 /-- a trivial semantics (every operation succeeds) used for the regression witnesses -/
 def semU : Sem Unit where
   ofTok := fun _ => ()
-  neg := fun _ => ()
-  pct := fun _ => ()
+  neg := fun _ => some ()
+  pct := fun _ => some ()
   sub2 := fun _ _ => .push ()
   bin := fun _ _ _ => .push ()
   resolve := fun _ => some ()
